@@ -137,6 +137,10 @@ Example C14_nonvacuous_document :
   ex_m1 <> ex_m2.
 Proof. exact respelled_documents. Qed.
 
+(* the signer hypothesis of C14_total is satisfiable *)
+Example C14_signer_in_range_example : signer_in_range (fun _ => Some (1, 2 ^ 255, 27)%Z).
+Proof. intros msg r s v E. injection E as <- <- <-. split; vm_compute; reflexivity. Qed.
+
 (* non-vacuity *)
 Example C14_nonvacuous :
   integer_member_type [] (bs "int256") (mkEtc EInt 256 (bs "256")) /\
